@@ -183,6 +183,8 @@ func checkC05(w *World, r *Report) {
 	r.Rule("C05.writers", "P4", "every writer of VestingPool.{InitiallyLocked,Sent,Withdrawn} and of the account-vesting-pools store prefix is a keeper operation reached from a message (then C05.pair applies), genesis initialisation, the v1.2.0 upgrade or a store migration; none is reachable from a query or a block routine; the one delete on the prefix is unreachable from every entry set", 8)
 	r.Rule("C05.pair", "P5,P6", "each keeper operation that changes a ledger field moves coins between the owner/recipient and the cfevesting module account in the matching direction, by the same value (or its per-pool accumulator), and persists the pools only on the success edge of that transfer or where the amount is not positive; every transfer out of the module account is paired with such a ledger change", 9)
 	r.Rule("C05.avail", "P5,P7", "Sent grows only where currentlyLocked(pool) >= amount (ordering table: '<' => error, '=' and '>' => proceed) and amount is not negative; Withdrawn grows only by the result of CalculateWithdrawable", 4)
+	r.Rule("C05.rmwkey", "P6,P8", "read-modify-write of an owner's pools record: wherever a function both looks the record up and stores it, an Owner assigned to a freshly created record is the very expression used as lookup key (the store key is the record's Owner)", 1)
+	r.Rule("C05.key", "P8", "sibling agreement on the store key of an owner's pools record: it is stored under AccAddress.String() of the owner, so every lookup on the message trees uses AccAddress.String() of a parsed address, never the owner string as spelled in the message; the pool query does the same whenever the owner parses (found F22)", 4)
 	r.Rule("C05.errprop", "P5", "in cfevesting message trees every error result of a bank or keeper call is tested, and its failure edge returns a non-nil error (event-emission errors may be logged and dropped)", 10)
 	r.Rule("C05.gen", "P5", "InitGenesis persists pools only after ValidateAccountsOnGenesis succeeded, which compares the sum of GetCurrentlyLocked with the module balance", 2)
 	r.Rule("C05.locked", "P6", "the currently-locked amount of a pool is InitiallyLocked minus Sent minus Withdrawn (exactly these three ledger fields), and pool validation rejects a negative value of each and of the difference", 5)
@@ -457,6 +459,42 @@ func checkC05(w *World, r *Report) {
 
 	// ---------- C05.avail ----------
 	c05avail(w, r, ops)
+	// ---------- C05.rmwkey ----------
+	// read-modify-write of an owner's pools: the record is stored under its Owner field; a record created because the
+	// lookup missed must carry the very key that was looked up, or the owner's existing record is overwritten
+	{
+		nrmw := 0
+		for fn := range cg.Reach(ro.MSG["cfevesting"]) {
+			if !w.isProdFunc(fn) {
+				continue
+			}
+			var key ssa.Value
+			hasSet := false
+			for _, s := range cg.Sites[fn] {
+				if calleeIs(s, "x/cfevesting/keeper.Keeper.GetAccountVestingPools") {
+					a := s.Args()
+					key = a[len(a)-1]
+				}
+				if calleeIs(s, "x/cfevesting/keeper.Keeper.SetAccountVestingPools") {
+					hasSet = true
+				}
+			}
+			if key == nil || !hasSet {
+				continue
+			}
+			for _, fs := range FieldStores(fn) {
+				if fs.Field != "Owner" || !namedIs(fs.Struct, "x/cfevesting/types", "AccountVestingPools") {
+					continue
+				}
+				nrmw++
+				r.Check(sameExpr(fs.Store.Val, key, 0), "C05.rmwkey", funcName(fn)+": a record created on a lookup miss is keyed by the key looked up", w.Pos(fs.Store.Pos()),
+					"Owner := the lookup key (same expression)", "the pools are looked up under one rendering of the owner and a new record is stored under another: when the two differ (bech32 is case-insensitive) the owner's existing record is overwritten and its pools' coins stay in the module account unrecorded")
+			}
+		}
+		_ = nrmw
+	}
+	// ---------- C05.key ----------
+	poolKeyRule(w, r, "C05.key")
 	// ---------- C05.errprop ----------
 	c05errprop(w, r, msgReach)
 	// ---------- C05.gen ----------
@@ -851,4 +889,39 @@ func instrReachableFrom(a, b ssa.Instruction) bool {
 		stack = append(stack, x.Succs...)
 	}
 	return false
+}
+
+// poolKeyRule: every lookup of an owner's pools on the cfevesting message trees uses the canonical rendering of the address.
+func poolKeyRule(w *World, r *Report, rule string) {
+	cg := w.CG()
+	ro := w.Roles()
+	for fn := range cg.Reach(ro.MSG["cfevesting"]) {
+		if !w.isProdFunc(fn) {
+			continue
+		}
+		n := 0
+		for _, s := range cg.Sites[fn] {
+			if !calleeIs(s, "x/cfevesting/keeper.Keeper.GetAccountVestingPools") {
+				continue
+			}
+			n++
+			a := s.Args()
+			_, ok := isCallTo(a[len(a)-1], "types.AccAddress.String")
+			construct := funcName(fn) + ": pools looked up under the canonical address"
+			if n > 1 {
+				construct = fmt.Sprintf("%s #%d", construct, n)
+			}
+			r.Check(ok, rule, construct, w.Pos(s.Instr.Pos()), "AccAddress.String()", "the owner's pools are looked up under the owner string as spelled in the message; records are stored under the canonical rendering, so a differently spelled (upper-case bech32) owner is told that no pools exist")
+		}
+	}
+	// the pool query: the key is the canonical rendering whenever the owner parses
+	if q := w.Func("x/cfevesting/keeper.Keeper.VestingPools"); q != nil {
+		for _, s := range cg.Sites[q] {
+			if calleeIs(s, "x/cfevesting/keeper.Keeper.GetAccountVestingPools") {
+				a := s.Args()
+				o := w.Tracer().Origins(a[len(a)-1])
+				r.Check(o.HasCall("types.AccAddress.String") && o.HasCall("AccAddressFromBech32"), rule, funcName(q)+": pools looked up under the canonical address", w.Pos(s.Instr.Pos()), "AccAddress.String() of the parsed owner", "the query looks the pools up under the owner string as given in the request: a differently spelled owner gets 'not found' while a withdrawal by the same owner pays")
+			}
+		}
+	}
 }
